@@ -30,13 +30,14 @@ def emit_kind(ctx: Ctx, ev: Ev) -> Optional[str]:
     return None
 
 
-def _collab_sources(ctx: Ctx, g: Graph) -> Set[int]:
+def _collab_sources(ctx: Ctx, g: Graph, kinds=('event', 'store')) -> Set[int]:
+    """Events whose exception edge is a fault of a user-supplied collaborator of the given kinds."""
     out = set()
     for ev in g.evs:
         src = ev
         if ev.kind == 'await' and ev.info.get('call') is not None:
             src = g.evs[ev.info['call']]
-        if src.kind == 'call' and ctx.roles.collab(src):
+        if src.kind == 'call' and ctx.roles.collab(src) in kinds:
             out.add(ev.id)
     return out
 
@@ -159,7 +160,8 @@ def rule_node_events(ctx: Ctx, out: Collector) -> None:
         if 'S' not in sym_of.values():
             continue
         n += 1
-        collab = _collab_sources(ctx, g)
+        # the property speaks of event managers that do not raise; a configured artifact store may well raise (write-once)
+        collab = _collab_sources(ctx, g, kinds=('event',))
         # DFA (see DESIGN 4, C14).  q1: started; qk: constructing; q2: body/default invoked; q2d: default after body;
         # q3: attempt completed with error; q4: completed ok; q5: published
         delta = {
